@@ -133,7 +133,20 @@ func genConstantOfShape(r *gen.R, validOnly bool) (mon.OpReq, Expect, bool) {
 		req.Attrs = []*mon.Attr{mon.AttrT("value", mon.TensorProto("", val, r.Bool()))}
 	}
 	if !validOnly && r.Chance(0.2) {
-		switch r.Intn(4) {
+		switch r.Intn(6) {
+		case 4: // a payload of one element under dims that ask for another number of elements: malformed tensor
+			one := r.Tensor(gen.AllDecodable[r.Intn(len(gen.AllDecodable))], []int{1}, gen.FillSmall, 9)
+			tp := mon.TensorProto("", one, r.Bool())
+			tp.Dims = [][]int64{{2, 3}, {3}, {2}, {1, 0}, {0}, {-1}, {1, 2}, {2, 1, 1}}[r.Intn(8)]
+			req.Attrs = []*mon.Attr{mon.AttrT("value", tp)}
+			req.Inputs = []*ref.T{gen.I64s(s64...)}
+			return req, Expect{Kind: MustError, Why: "value tensor whose payload (one element) does not match its dims"}, true
+		case 5: // the attribute given twice (two values): an attribute list names each attribute once
+			a := r.Tensor(ref.F32, []int{1}, gen.FillSmall, 9)
+			b := r.Tensor(r.PickDT(ref.F32, ref.I64, ref.F64), []int{1}, gen.FillSmall, 9)
+			req.Attrs = []*mon.Attr{mon.AttrT("value", mon.TensorProto("", a, r.Bool())), mon.AttrT("value", mon.TensorProto("", b, r.Bool()))}
+			req.Inputs = []*ref.T{gen.I64s(s64...)}
+			return req, Expect{Kind: MustError, Why: "value attribute given twice"}, true
 		case 0:
 			two := r.Tensor(ref.F32, r.PickShape([]int{2}, []int{1, 3}, []int{1, 2}, []int{1, 1, 2}, []int{2, 1}, []int{3}, []int{2, 2}), gen.FillUnique, 0)
 			req.Attrs = []*mon.Attr{mon.AttrT("value", mon.TensorProto("", two, r.Bool()))}
